@@ -1,0 +1,43 @@
+//! Contract predicates used by the verification hooks.
+//!
+//! This module only exists under `cfg(kani)` / `cfg(mmtk_verif)`. Each `pre_*`/`post_*` function is the
+//! pre-/postcondition of one function of this crate, written as ordinary executable Rust so that the
+//! Kani contract attributes (`#[cfg_attr(kani, kani::requires(..))]`), the plain proof harnesses in the
+//! external verification tree and native replays of counterexamples all evaluate the same text.
+//! Nothing here is used by normal builds.
+#![allow(missing_docs, clippy::missing_docs_in_private_items, dead_code)]
+
+/// `util::conversions` and `util::address` rounding arithmetic.
+pub mod align {
+    pub fn pre_raw_align_up(val: usize, align: usize) -> bool {
+        align.is_power_of_two() && val <= usize::MAX - (align - 1)
+    }
+    /// `r` is the least multiple of `align` that is `>= val` (window form: aligned, `>= val`, closer than `align`).
+    pub fn post_raw_align_up(val: usize, align: usize, r: usize) -> bool {
+        r >= val && r & (align - 1) == 0 && r - val < align
+    }
+    pub fn pre_raw_align_down(_val: usize, align: usize) -> bool {
+        align.is_power_of_two()
+    }
+    /// `r` is the greatest multiple of `align` that is `<= val`.
+    pub fn post_raw_align_down(val: usize, align: usize, r: usize) -> bool {
+        r <= val && r & (align - 1) == 0 && val - r < align
+    }
+    pub fn pre_raw_is_aligned(_val: usize, align: usize) -> bool {
+        align.is_power_of_two()
+    }
+    pub fn post_raw_is_aligned(val: usize, align: usize, r: bool) -> bool {
+        // `val` is a multiple of `align == 2^k` iff dropping and restoring the low k bits is the identity
+        let k = align.trailing_zeros();
+        r == ((val >> k) << k == val)
+    }
+    pub fn pre_rshift_align_up(num: usize, bits: usize) -> bool {
+        bits < usize::BITS as usize && num <= usize::MAX - ((1usize << bits) - 1)
+    }
+    /// `r == ceil(num / 2^bits)`: `r * 2^bits >= num` and `(r - 1) * 2^bits < num`, in shift form.
+    pub fn post_rshift_align_up(num: usize, bits: usize, r: usize) -> bool {
+        r <= (usize::MAX >> bits)
+            && (r << bits) >= num
+            && (r << bits) - num < (1usize << bits)
+    }
+}
